@@ -227,6 +227,15 @@ FamCross(X) ==
            PB == FamDustHtlc(X) \cup FamCount(X) \cup FamCltv(X) \cup FamInflight(X) IN
        {Compose(p, q) : p \in PA, q \in PB}
 
+\* thorough: random triples (fee edge x main-output edge x HTLC edge), drawn by TLC's generator
+\* (seeded with VERIF_SEED through -seed)
+FamRandom(X) ==
+  IF X.n = 0 \/ ~Thorough THEN {}
+  ELSE LET PA == {PFee(fs) : fs \in FeeSpecs(X)}
+           PM == FamDustMain(X) \cup {NoPatch}
+           PB == FamDustHtlc(X) \cup FamCount(X) \cup FamCltv(X) \cup FamInflight(X) \cup FamFeerate(X) IN
+       {Compose(Compose(RandomElement(PM), RandomElement(PA)), RandomElement(PB)) : j \in 1..120}
+
 \* fees whose rate estimate leaves 32 / 64 bits
 FamExtreme(X) ==
   {Compose(Shape(X, s[1], s[2], 20000), PFee(fs))
@@ -305,6 +314,7 @@ StdCases ==
           \cup CasesOf(X, "overflow", FamOverflow(X)) \cup CasesOf(X, "cltv", FamCltv(X))
           \cup CasesOf(X, "initial", FamInitial(X)) \cup CasesOf(X, "pairs", FamPairs(X))
           \cup (IF X.pol \in {BasePol, PolOnUse, PolTight} /\ X.outbound THEN CasesOf(X, "cross", FamCross(X)) ELSE {})
+          \cup CasesOf(X, "random", FamRandom(X))
           : X \in StdCtx }
 
 \* the initial commitment: who funds, how much is pushed
@@ -342,7 +352,8 @@ W(t)  == [tag |-> t, prefix |-> FALSE, warn |-> TRUE]
 E(t)  == [tag |-> t, prefix |-> FALSE, warn |-> FALSE]
 PW(t) == [tag |-> t, prefix |-> TRUE, warn |-> TRUE]
 PE(t) == [tag |-> t, prefix |-> TRUE, warn |-> FALSE]
-OtherTags == {Tag("count"), Tag("fee_low"), Tag("dust_b"), Tag("delay_cp"), <<"policy", "commitment">>}
+OtherTags == IF Thorough THEN {Tag(r) : r \in CommitRules \cup SetupRules} \cup {<<"policy", "commitment">>}
+             ELSE {Tag("count"), Tag("fee_low"), Tag("dust_b"), Tag("delay_cp"), <<"policy", "commitment">>}
 FiltersAround(tags) ==
      UNION { {<< W(t) >>, << PW(SubSeq(t, 1, 2)) >>, << PW(SubSeq(t, 1, 3)) >>, << E(t), PW(<< >>) >>,
               << E(t), W(t) >>, << W(<<"policy", "other">>), W(t) >>, << PE(SubSeq(t, 1, 3)), W(t) >>,
